@@ -7,8 +7,8 @@
 //	cfg sup=<optlist|-> pas=<t:ns|m:n|l|-> re=<mode:limit|-> stash=<0|1> role=<r|%|-> deps=<id:payload,..|-> init=<ns|->
 //	                   relocation path inside one local actor system: Spawn(opts) -> pid.toSerialize() -> proto
 //	                   Marshal/Unmarshal -> wireSpawnOptions -> Spawn  ->  B{dump pid} W{dump record} A{dump pid'}
-//	rsp <same as cfg>  remote spawn: local Spawn(opts) for reference; the request assembled as Spawn + the remoting
-//	                   client do, through protobuf, handed to the REAL remoteSpawnHandler of a second system
+//	rsp <same as cfg>  remote spawn for real: local Spawn(opts) for reference; then Spawn(opts, WithHostAndPort) on a second
+//	                   system with remoting on a loop-back port: remoting client -> TCP -> remoteSpawnHandler -> Spawn
 //	re <mode> <limit>  codec level for reentrancy -> B{mode:limit} W{mode:limit} A{mode:limit}
 //	pas <t:ns|m:n|l>   codec level for the passivation strategy
 //	fields             field names of the wire messages the model mirrors
